@@ -63,9 +63,9 @@ CHECKS = {
     ),
     "C13": dict(
         category="other",
-        technique="symbolic execution of real parser+renderers on expression templates (z3 Int, float quotient model L_fpq): value term == independent evaluation, emitted literal term == value; symbolic backtracking interpretation of the string-token regex over symbolic characters (where a literal ends); CrossHair for string emission (+ a concrete Unicode sweep)",
+        technique="symbolic execution of real parser+renderers on expression templates (z3 Int, float quotient model L_fpq): value term == independent evaluation, emitted literal term == value; symbolic backtracking interpretation of the string-token regex over symbolic characters (where a literal ends); CrossHair for string emission (+ a concrete Unicode sweep) and for the text -> value step of decimal integer tokens",
         text="All constant-expression shapes with <= 3 operators (flat and every parenthesisation; decimal/hex/referenced/imported operands, symbolic values) go through the real lexer+parser; z3 proves the constant's value equals an independent precedence-climbing evaluation, that the same term arrives as array capacity and max_bytes, and that the literal the real C/Go/Python renderers emit is the constant's own term; booleans by a literal table; strings by CrossHair over the real escape loop and format_str_value with a reference literal decoder.",
-        note="`/` asserted where dividend >= 0 and divisor > 0; string emission: CrossHair 3-4 characters over printable ASCII + tab/CR/LF, beyond that only a concrete sweep of 46 code points x 5 contexts; token extent: opening quote + <= 9 (thorough 13) symbolic characters; decimal rendering itself is Python's str(int).",
+        note="`/` asserted where dividend >= 0 and divisor > 0; string emission: CrossHair 3-4 characters over printable ASCII + tab/CR/LF, beyond that only a concrete sweep of 46 code points x 5 contexts; token extent: opening quote + <= 9 (thorough 13) symbolic characters; integer tokens: decimal digit strings of <= 6 (thorough 9) digits by CrossHair, hex tokens only through the concrete spellings of the templates; decimal rendering itself is Python's str(int).",
         design="6/C13",
     ),
     "C11": dict(
@@ -142,7 +142,7 @@ CHECKS = {
         category="other",
         technique="symbolic execution of the real compiler over a compilation HISTORY (A, B, A in one run with a new Parser each, z3 Int holes, both language orders, render/lint/render): outputs identical as text + terms, first output == fresh-process output; plus a labelled concrete observation of the process-level clauses (hash seed, directories, paths, -q) through the real CLI",
         text="Kernel only: the one clause with a value quantifier, `independent of whether other schemas were compiled earlier in the same process` (and, with C20d, of whether linting is enabled). In one symbolic run the real parser+linter+renderers compile schema A, then a schema B that re-uses A's names with other values / marks / constant kinds, then A again; for all values of the holes of A and B the first and third rendering of A (C header, C source, Go, Python) must be the same text with the same terms for every symbolic literal. A difference is confirmed natively (one process compiling A, B, A).",
-        note="Not solver-decided, only observed on 12 runs x 3 languages of one schema: independence of the process, PYTHONHASHSEED, working/output directory, relative vs absolute paths -- none is an input that can be made symbolic (the hash seed is fixed before the interpreter starts; id()-based hashing and dict order are properties of the runtime); deciding them means re-running the compiler, i.e. enumerating concrete runs.",
+        note="Not solver-decided, only observed on 12 runs x 3 languages of two schemas: independence of the process, PYTHONHASHSEED, working/output directory, relative vs absolute paths -- none is an input that can be made symbolic (the hash seed is fixed before the interpreter starts; id()-based hashing and dict order are properties of the runtime); deciding them means re-running the compiler, i.e. enumerating concrete runs.",
         design="6/C18",
     ),
 }
